@@ -14,7 +14,7 @@ pub use crate::input::{parse_action_arg, parse_key_action, Input};
 pub use crate::header::Header;
 pub use crate::matcher::{Matcher, MatcherControl};
 pub use crate::previewer::Previewer;
-pub use crate::reader::{Reader, ReaderControl};
+pub use crate::reader::{CommandCollector, Reader, ReaderControl};
 pub use crate::spinlock::SpinLock;
 
 use std::sync::atomic::{AtomicBool, Ordering};
